@@ -43,10 +43,11 @@ EqualsDescs == [i \in DOMAIN GridSeq |-> <<"e", "equals", GridSeq[i], One>>]
 
 Descs == MyCases(UnaryDescs \o SameDescs \o ArithDescs \o BadDescs \o EqualsDescs)
 
-UDom(op, k) == CASE op = "log" -> "pos,wide"
-                 [] op = "pow" -> (IF k.d # 1 THEN "pos" ELSE IF k.n < 0 THEN "nz,wide" ELSE "any,wide,zero")
-                 [] op \in {"exp", "sinh", "cosh"} -> "any,big,zero"
-                 [] OTHER -> "any,wide,zero"
+(* tinypos / tinymix: DISTINCT neighbours closer than the library's equality tolerance (1e-240) *)
+UDom(op, k) == CASE op = "log" -> "pos,wide,tinypos"
+                 [] op = "pow" -> (IF k.d # 1 THEN "pos,tinypos" ELSE IF k.n < 0 THEN "nz,wide,tinypos" ELSE "any,wide,zero,tinymix")
+                 [] op \in {"exp", "sinh", "cosh"} -> "any,big,zero,tinymix"
+                 [] OTHER -> "any,wide,zero,tinymix"
 
 Build(d) ==
   CASE d[1] = "u" ->
